@@ -2,6 +2,7 @@ import KoordVerif.Model.C11
 import KoordVerif.Proofs.C11Loop
 import KoordVerif.Proofs.C11Order
 import KoordVerif.Proofs.C11Sort
+import KoordVerif.Proofs.C11SortBE
 /-
 C11 — property theorems (DESIGN.md §4 C11).
 
@@ -192,10 +193,40 @@ theorem prio_list_in_published_order (threshold : Int) (byReq : Bool) (pods : Li
   have h : ¬ _ := fun h => by rw [(prioLess_iff byReq b a).mpr h] at hba; cases hba
   omega
 
-/-- BE lists: full statement (sortedness w.r.t. (spec.priority ↑, usage ↓ / usage-ratio ↓) when all
-    listed pods carry a spec.priority) is NOT proved here; what is proved for them is eligibility
-    (above) and that sorting only permutes: -/
-theorem be_list_is_permutation_partial (usage : Int → Int → Int) (pods : List Pod) (i : Info) :
+/-! ### B.2 (BE lists) — when every pod carries a spec.priority, the BE victim lists are sorted by
+    (spec.priority ↑, then usage: memory = non-zero usage first, larger first, zero-usage pods by name ↓;
+    CPU = usage/request ratio ↓).  On lists mixing nil and non-nil priorities the Go comparators are not
+    transitive and no order is claimed (the harness keeps such lists out, see assumptions). -/
+theorem be_mem_list_in_published_order (pods : List Pod) (hall : ∀ p ∈ pods, ∃ v, p.specPrio = some v) :
+    (selectBEMem pods).Pairwise fun a b => beMemLess b a = false := by
+  unfold selectBEMem
+  apply isort_sorted_on beMemLess_swo
+  intro i hi
+  obtain ⟨p, hp, h⟩ := List.mem_filterMap.mp hi
+  rw [HasPrio, beInfo_pod _ _ _ p i h]; exact hall p hp
+
+theorem be_cpu_list_in_published_order (usage : Int → Int → Int) (pods : List Pod)
+    (hall : ∀ p ∈ pods, ∃ v, p.specPrio = some v) :
+    (selectBECpu usage pods).Pairwise fun a b => beCpuLess b a = false := by
+  unfold selectBECpu
+  apply isort_sorted_on beCpuLess_swo
+  intro i hi
+  obtain ⟨p, hp, h⟩ := List.mem_filterMap.mp hi
+  rw [HasPrio, beInfo_pod _ _ _ p i h]; exact hall p hp
+
+/-- what `beCpuLess b a = false` / `beMemLess b a = false` mean for pods with priorities `pa`, `pb`:
+    `a` (earlier) has the lower priority, or the same priority and is not after `b` in usage order. -/
+theorem be_order_meaning (a b : Info) (pa pb : Int) (ha : a.pod.specPrio = some pa) (hb : b.pod.specPrio = some pb) :
+    (beCpuLess b a = false ↔ (pa < pb ∨ (pa = pb ∧ b.usageKey ≤ a.usageKey))) ∧
+    (beMemLess b a = false ↔ (pa < pb ∨ (pa = pb ∧ ¬ memBefore b a))) := by
+  constructor
+  · have := beCpuLess_iff b a pb pa hb ha
+    cases h : beCpuLess b a <;> simp [h] at this ⊢ <;> omega
+  · have := beMemLess_iff b a pb pa hb ha
+    by_cases hm : memBefore b a <;> cases h : beMemLess b a <;> simp [h, hm] at this ⊢ <;> omega
+
+/-- sorting only permutes the filtered pods. -/
+theorem be_list_is_permutation (usage : Int → Int → Int) (pods : List Pod) (i : Info) :
     (i ∈ selectBEMem pods ↔ i ∈ pods.filterMap (beInfo? (fun _ _ => 0) 1000 false)) ∧
     (i ∈ selectBECpu usage pods ↔ i ∈ pods.filterMap (beInfo? usage 1 true)) := by
   unfold selectBEMem selectBECpu
